@@ -1023,6 +1023,7 @@ class Analysis:
         inwork = set(work)
         self.events = []
         self.pre_parts = {}
+        pre_src = {}
         limit = 60000
         nparts = {}
         while work and limit > 0:
@@ -1036,7 +1037,8 @@ class Analysis:
             st = dict(parts[item])
             visits[item] = visits.get(item, 0) + 1
             for i, el in enumerate(b.el):
-                self.pre_parts.setdefault((bid, i), {})[pk] = dict(st)
+                # one slot per block-entry partition; re-keyed below by the key the state carries *at this element*
+                pre_src.setdefault((bid, i), {})[pk] = dict(st)
                 v = self.ev(el, st, False, el)
                 if "sid" in el and isinstance(v, AV):
                     st[("s", el["sid"])] = v
@@ -1097,6 +1099,11 @@ class Analysis:
                     if key not in inwork:
                         work.append(key)
                         inwork.add(key)
+        for k, d in pre_src.items():
+            o = self.pre_parts.setdefault(k, {})
+            for st in d.values():
+                cur = st.get(PK)
+                o[cur] = st if cur not in o else self.join_states(o[cur], st)
         # partition-blind views
         self.block_in = {}
         for (bid, pk), st in parts.items():
